@@ -31,18 +31,19 @@ type env struct {
 	c     *hx.Ctx
 	dir   string
 	files map[string]string
-	refT  map[string][]string   // doc+flags -> per-page Text (index p-1)
-	refF  map[string][][]string // doc+flags -> per-page fragment strings
-	refB  map[string]int        // doc+calls+op -> IsMultiColumn/IsCharacterLevel of a fresh extractor (-1 failed, 0, 1)
-	refC  map[string]string     // doc+calls+op -> canonical Document/Chunks of a fresh extractor
-	refP  map[string][]string   // doc+flags+op -> per-page payload of a list-valued terminal operation
+	refT  map[string][]string      // doc+flags -> per-page Text (index p-1)
+	refF  map[string][][]string    // doc+flags -> per-page fragment strings
+	refB  map[string]int           // doc+calls+op -> IsMultiColumn/IsCharacterLevel of a fresh extractor (-1 failed, 0, 1)
+	refC  map[string]string        // doc+calls+op -> canonical Document/Chunks of a fresh extractor
+	refP  map[string][]string      // doc+flags+op -> per-page payload of a list-valued terminal operation
+	refS  map[string][]pageSummary // doc+flags -> per-page ReadingOrder / Analyze summaries
 }
 
 func newEnv(c *hx.Ctx) *env {
 	dir := filepath.Join(c.OutDir, "files")
 	os.RemoveAll(dir)
 	os.MkdirAll(dir, 0o755)
-	return &env{c: c, dir: dir, files: map[string]string{}, refT: map[string][]string{}, refF: map[string][][]string{}, refB: map[string]int{}, refC: map[string]string{}, refP: map[string][]string{}}
+	return &env{c: c, dir: dir, files: map[string]string{}, refT: map[string][]string{}, refF: map[string][][]string{}, refB: map[string]int{}, refC: map[string]string{}, refP: map[string][]string{}, refS: map[string][]pageSummary{}}
 }
 
 // path writes the document (once) and returns its file name.
@@ -828,7 +829,8 @@ func (e *env) seqCase(d docParams, baseKind string, ops []seqOp) {
 	opsStr := make([]string, len(ops))   // as written in failure details and case names
 	modelStr := make([]string, len(ops)) // as sent to the model (IsCharacterLevel has IsMultiColumn's frame)
 	nontrivial := false
-	probed := false // some non-terminal call has run on some extractor of this family
+	probed := false    // some non-terminal call has run on some extractor of this family
+	var trace []string // life-cycle state of every extractor after every operation
 
 	for i, op := range ops {
 		opsStr[i] = op.token()
@@ -836,6 +838,7 @@ func (e *env) seqCase(d docParams, baseKind string, ops []seqOp) {
 		var post []func() // history oracles: run after the descriptor accounting of this operation
 		if op.E >= len(exts) {
 			results = append(results, "bad/"+strconv.Itoa(fdCount()-baseline))
+			trace = append(trace, lifeStates(exts))
 			continue
 		}
 		x := exts[op.E]
@@ -1055,6 +1058,8 @@ func (e *env) seqCase(d docParams, baseKind string, ops []seqOp) {
 		for _, f := range post {
 			f()
 		}
+		trace = append(trace, lifeStates(exts))
+		e.releaseOracle(kase, exts, op, opsStr[:i+1], borrowed != nil)
 	}
 
 	aborted = false
@@ -1076,6 +1081,8 @@ func (e *env) seqCase(d docParams, baseKind string, ops []seqOp) {
 	c.Op("c10.bld "+world+" "+strings.Join(modelStr, " "), strings.Join(results, " ")+" | "+strings.Join(dump, " "))
 	// the same answers, predicted by the model from each receiver's chain of calls alone
 	c.Op("c10.lin "+world+" "+strings.Join(opsStr, " "), strings.Join(stripFd(results), " "))
+	// the life-cycle flags of every extractor after every operation, predicted by the automaton
+	c.Op("c10.auto "+world+" "+strings.Join(opsStr, " "), strings.Join(trace, " ")+" | "+lifeStates(exts)+" "+ownersField(exts, ops, borrowed != nil))
 	fdAfterOps := fdCount() - baseline
 
 	// closing everything (twice) is harmless and releases every descriptor
@@ -1430,6 +1437,48 @@ func Run(c *hx.Ctx) {
 		}
 		e.lifeCase(f, baseKind, genLifeSeq(r, f.Units, thorough))
 	}
+	// 5. which error: Fragments of one-shot chains (every spelling of the generators) on good PDFs
+	nr := c.N(1500, 12000)
+	for i := 0; i < nr; i++ {
+		r := c.Rng.Fork(uint64(5_000_000 + i))
+		if i%200 == 0 {
+			settle()
+		}
+		d := docParams{Kind: "good", N: r.Range(1, 6), Lines: 1, Tag: fmt.Sprintf("t%x", r.Intn(4))}
+		e.rerrCase(d, withFlags(r, genSelCalls(r, d.N)))
+	}
+	// 6. families grown from FromHTMLString / FromHTMLReader (also a failing reader and a refused tree)
+	nh := c.N(1200, 12000)
+	for i := 0; i < nh; i++ {
+		r := c.Rng.Fork(uint64(6_000_000 + i))
+		if i%200 == 0 {
+			settle()
+		}
+		m := genMem(r)
+		e.memCase(m, genLifeSeq(r, 1, thorough))
+	}
+	// 7. the reader call every terminal operation ends in, for every format
+	ng := c.N(700, 7000)
+	for i := 0; i < ng; i++ {
+		r := c.Rng.Fork(uint64(7_000_000 + i))
+		if i%100 == 0 {
+			settle()
+		}
+		d, cs := genDisp(r)
+		e.dispCase(d, cs)
+	}
+	// 8. cross-page summaries: ReadingOrder().ColumnCount / page size, Analyze().Stats
+	nq := c.N(110, 1100)
+	for i := 0; i < nq; i++ {
+		r := c.Rng.Fork(uint64(8_000_000 + i))
+		if i%20 == 0 {
+			settle()
+		}
+		d := genCombDoc(r, thorough)
+		for j := 0; j < 4; j++ {
+			e.combCase(d, withFlags(r, genSelCalls(r, d.N)))
+		}
+	}
 	end := fdCount()
 	c.Check("C10/fd-leak", end == start || len(c.Rep.FailureCount) > 0, map[string]interface{}{"mode": "whole-run"}, func() string {
 		return fmt.Sprintf("descriptors at start of run %d, at end %d", start, end)
@@ -1443,6 +1492,8 @@ type recorded struct {
 	Base  string      `json:"base"`
 	Ops   []seqOp     `json:"ops"`
 	File  *fileParams `json:"file,omitempty"`
+	Mem   *memParams  `json:"mem,omitempty"`
+	Disp  *dispParams `json:"disp,omitempty"`
 }
 
 func parseCase(b []byte) (recorded, bool) {
@@ -1463,8 +1514,14 @@ func parseCase(b []byte) (recorded, bool) {
 	if k.Mode == "life" {
 		return k, k.File != nil
 	}
-	if k.Mode == "meta" {
+	if k.Mode == "meta" || k.Mode == "rerr" || k.Mode == "comb" {
 		return k, true
+	}
+	if k.Mode == "mem" {
+		return k, k.Mem != nil
+	}
+	if k.Mode == "disp" {
+		return k, k.Disp != nil
 	}
 	return k, k.Mode == "sel" || k.Mode == "seq"
 }
@@ -1480,6 +1537,14 @@ func (e *env) runCase(k recorded) {
 		e.seqCase(k.Doc, k.Base, k.Ops)
 	case "meta":
 		e.metaCase(k.Doc, k.Calls)
+	case "rerr":
+		e.rerrCase(k.Doc, k.Calls)
+	case "comb":
+		e.combCase(k.Doc, k.Calls)
+	case "mem":
+		e.memCase(*k.Mem, k.Ops)
+	case "disp":
+		e.dispCase(*k.Disp, k.Calls)
 	case "life":
 		if k.Base == "" {
 			k.Base = "f"
